@@ -147,7 +147,7 @@ def rand_file_tree(rng):
     if rng.random() < 0.3 and len(decls) > 1:
         i, j = rng.sample(range(len(decls)), 2)
         decls[i], decls[j] = decls[j], decls[i]
-    paths = [["m1"], ["d1", "m2"], ["d1", "d2", "m3"]]
+    paths = [["m1"], ["d1", "m2"], ["d1", "d2", "m3"], ["pa", "types"], ["pb", "types"]]
     nmod = rng.randint(0, 2)
     files = {("main",): []}
     assign = {}
